@@ -39,6 +39,14 @@ def main():
            'trusted': list(reg.trusted), 'note': u.note}
     t0 = time.time()
     try:
+        if getattr(u, 'kind', 'unit') == 'watch':
+            # not under contract: only its source hash is tracked; covered by the bounded native search alone
+            mi = extract.load(u.file)
+            fnode, ci = mi.find_func(u.qual)
+            if fnode is None: raise AnchorLost('%s::%s not found' % (u.file, u.qual))
+            res['sha256'] = mi.sha(fnode); res['lines'] = [fnode.lineno, fnode.end_lineno]; res['watch_only'] = True
+            res['wall_s'] = 0; res['generated'] = 0
+            print(json.dumps(res)); return 0
         if getattr(u, 'kind', 'unit') == 'lemma':
             # pure lemma over contracts: u.lemma(reg) -> list of (name, hyps, goal)
             from pyvc.core import Obligation
